@@ -17,6 +17,12 @@ import EncodingRs.Thm.C10Full
   condition), `dref_length_le`: `|dref d stream| ≤ |stream| + withheld + 5`.
 * **`life_caller_loop_bound`**: from `Decoder.new`, all 40 encodings, three BOM modes:
   `calls ≤ bytes + chunks + 6`.
+* `DLifeLoopPre` (every prefix of a run; no constructor requires that the call that ends the stream is
+  ever reached), `life_prefix_calls_le_events`, **`life_caller_loop_prefix_bound`**,
+  **`life_caller_loop_terminates`**: no prefix of a run has more than `bytes + chunks + 6` calls — the
+  loop cannot go on for ever.  The theorems about complete loops are corollaries.
+* Non-vacuity: a four-call run (Shift_JIS, sniffing, `FE 41 42 43 B1`) through a withheld byte, a
+  `Malformed` replay, an admissible `OutputFull` and the final call, and a proper prefix of it.
 -/
 namespace EncodingRs.Thm.C08Loop
 open EncodingRs EncodingRs.Model EncodingRs.Lemmas.Core EncodingRs.Lemmas.FamLaws EncodingRs.Lemmas.Life
